@@ -28,7 +28,7 @@ LcbOK(c) ==
 TslStatic(c) ==
   LET L == c.L  box == Box(Shape(L)) IN
   First(<<
-    <<"AffineMapView", \A i \in box : AffEval(c.affine, i) = Addr0(L, i)>>,
+    <<"AffineMapView", \A i \in box : AffEval(c.affine, i) = Addr(L, i)>>,
     <<"AllValuesView", c.allvalues = AllValues(L)>>,
     <<"OverlapPredicate", (c.overlaps = 1) = SelfOverlaps(L)>>,
     <<"DensePredicate", (c.dense = 1) = IsDense(L)>>,
@@ -127,6 +127,25 @@ ChosenLayout(c) ==
     <<"Injective", Injective(c.L)>>
   >>)
 
+(* ---------------- C02: streamer address stream = scheduled element stream ---------------- *)
+TemporalBounds(c) == SubSeq(c.bounds, 1, Len(c.bounds) - c.T)
+SpatialBoxOf(c) == [j \in 1..c.T |-> IF c.rel[j] = 1 THEN c.bounds[Len(c.bounds) - c.T + j] ELSE 1]
+(* temporal index tuple of step n: last temporal dim fastest *)
+RECURSIVE AboveProd(_, _)
+AboveProd(tb, d) == IF d >= Len(tb) THEN 1 ELSE tb[d + 1] * AboveProd(tb, d + 1)
+TIndex(tb, n) == [d \in DOMAIN tb |-> (n \div AboveProd(tb, d)) % tb[d]]
+ElemBytes(c, idx) == LET a == Addr(c.L, idx) * c.w IN a..(a + c.w - 1)
+SchedBytes(c, n) ==
+  LET t == TIndex(TemporalBounds(c), n) IN
+  UNION {ElemBytes(c, ApplyPat([A |-> c.A, b |-> c.b], t \o s)) : s \in Box(SpatialBoxOf(c))}
+
+StreamCase(c) ==
+  LET nsteps == Prod(TemporalBounds(c), 1) IN
+  First(<<
+    <<"StepCount", Steps(c.ub) = nsteps>>,
+    <<"StepBytes", Steps(c.ub) = nsteps => \A n \in 0..(nsteps - 1) : StepBytes(c.base, c.ub, c.ts, c.sb, c.ss, 8, n) = SchedBytes(c, n)>>
+  >>)
+
 EqCase(c) == First(<< <<c.clause, c.x = c.y>> >>)
 
 JudgeObj(c) ==
@@ -141,6 +160,7 @@ JudgeObj(c) ==
     [] c.kind = "accesspat" -> AccessPatCase(c)
     [] c.kind = "stridepat" -> StridePatCase(c)
     [] c.kind = "eq" -> EqCase(c)
+    [] c.kind = "stream" -> StreamCase(c)
     [] c.kind = "chosenlayout" -> ChosenLayout(c)
     [] OTHER -> "machinery:unknown-kind"
 
